@@ -70,6 +70,53 @@ def _same_object(cfg, a: ast.expr, at_a, b: ast.expr, at_b) -> bool:
     return rd.defs_at(at_a, ra) == rd.defs_at(at_b, rb)
 
 
+def _access_path(cfg, e: ast.expr, at, depth: int = 0):
+    """Resolved access path of ``e`` evaluated at ``at``: ``((root name, reaching defs of the
+    root), attribute steps)``.  A local bound once to a plain name / attribute chain
+    (``file_config = parsed.config``) is replaced by that chain, read at its definition, so
+    the spelled-out chain and the value read through a local compare equal exactly when they
+    name the same member of the same binding of the root.  None when ``e`` is not a chain."""
+    steps: List[str] = []
+    rd = cfg.reaching()
+    while True:
+        if isinstance(e, ast.Attribute):
+            steps.append(e.attr)
+            e = e.value
+            continue
+        if isinstance(e, ast.Name):
+            ds = rd.defs_at(at, e.id) if at is not None else set()
+            if len(ds) == 1 and depth < 8:
+                d = next(iter(ds))
+                if d.kind == "assign" and not d.path and isinstance(d.value, (ast.Name, ast.Attribute)):
+                    e, at, depth = d.value, d.stmt, depth + 1
+                    continue
+            return (e.id, frozenset(id(d) for d in ds)), tuple(reversed(steps))
+        return None
+
+
+def _same_value_origin(cfg, a: ast.expr, at_a, b: ast.expr, at_b) -> bool:
+    """Two plain names that are bound (on every path) by the very same expressions."""
+    if not (isinstance(a, ast.Name) and isinstance(b, ast.Name)):
+        return False
+    oa, ob = origins(cfg, a, at_a), origins(cfg, b, at_b)
+    return bool(oa) and {(id(o.expr), o.path, o.kind) for o in oa} == {(id(o.expr), o.path, o.kind) for o in ob}
+
+
+def _bound_arg(func, call: ast.Call, param: str, *, method: bool = False) -> Optional[ast.expr]:
+    """The argument a call binds to parameter ``param`` of ``func`` (keyword or position)."""
+    v = kwarg(call, param)
+    if v is not None:
+        return v
+    params = [a.arg for a in func.args.args]
+    if method and params and params[0] in ("self", "cls"):
+        params = params[1:]
+    if param in params:
+        i = params.index(param)
+        if i < len(call.args) and not any(isinstance(x, ast.Starred) for x in call.args[: i + 1]):
+            return call.args[i]
+    return None
+
+
 def run(chk) -> None:
     repo = chk.repo
     chk.rule("R19a", "the rule pack handed to lint_parsed / lint_rendered / lint_fix_parsed is built from the per-file config of the object being linted")
@@ -183,15 +230,18 @@ def _r19a(chk, repo) -> None:
                         # forwarder: the subject handed on must be (derived from) this
                         # function's own subject, and a config argument must be its .config
                         if conf is not None:
-                            want_root = root_name(conf)
-                            ok = isinstance(conf, ast.Attribute) and conf.attr == "config" and want_root in params
+                            # ``<own parameter>.config``, spelled out or read through a local
+                            ap = _access_path(cfg, conf, st)
+                            ok = ap is not None and len(ap[1]) >= 1 and ap[1][-1] == "config" and ap[0][0] in params
                             if not ok:
                                 bad = f"forwards its own rule pack but passes config {norm(conf)!r}, not the config of its subject parameter"
                         else:
                             sr = root_name(subj)
                             so = origins(cfg, subj, st) if isinstance(subj, ast.Name) else []
                             ok = (sr in params) or any(
-                                isinstance(x.expr, ast.Call) and any(isinstance(a, ast.Name) and a.id in params for a in x.expr.args) for x in so
+                                isinstance(x.expr, ast.Call)
+                                and any(isinstance(a, ast.Name) and a.id in params for a in list(x.expr.args) + [k.value for k in x.expr.keywords if k.arg])
+                                for x in so
                             )
                             if not ok:
                                 bad = "forwards its own rule pack with a subject that does not derive from its own subject parameter"
@@ -201,10 +251,15 @@ def _r19a(chk, repo) -> None:
                             bad = "rule pack built without a config (falls back to the linter's root config, which lacks per-file and inline settings)"
                         else:
                             want = conf if conf is not None else ast.Attribute(value=subj, attr="config", ctx=ast.Load())
+                            # same member of the same binding, whether spelled out or read through a
+                            # local (``file_config = parsed.config``): compared on resolved access paths
+                            pe = _access_path(cfg, e, o.stmt)
                             if conf is not None:
-                                same = _same_object(cfg, e, o.stmt, conf, st)
+                                pw = _access_path(cfg, conf, st)
+                                same = _same_object(cfg, e, o.stmt, conf, st) or (pe is not None and pe == pw)
                             else:
-                                same = norm(e) == norm(want) and root_name(e) is not None and cfg.reaching().defs_at(o.stmt, root_name(e)) == cfg.reaching().defs_at(st, root_name(subj))
+                                ps = _access_path(cfg, subj, st)
+                                same = pe is not None and ps is not None and pe == (ps[0], ps[1] + ("config",))
                             if not same:
                                 bad = (
                                     f"rule pack is built from {norm(e)!r} but the object linted carries its own per-file config "
@@ -230,8 +285,9 @@ def _r19a(chk, repo) -> None:
             n += 1
             e = kwarg(c, "config")
             params = [a.arg for a in pr.args.args]
+            ap = _access_path(cfg, e, cfg.stmt_of(c)) if e is not None else None
             chk.require(
-                e is not None and isinstance(e, ast.Attribute) and e.attr == "config" and root_name(e) in params,
+                ap is not None and len(ap[1]) >= 1 and ap[1][-1] == "config" and ap[0][0] in params,
                 "R19a", c, "ParsedString is not given the rendered file's own config", detail="parse_rendered passes rendered.config",
             )
     chk.count("R19a.parsedstring_sites", n)
@@ -244,23 +300,38 @@ def _r19b(chk, repo) -> None:
     f = repo.fn(LINTER, "Linter.load_raw_file_and_config")
     cfg = cfg_of(f)
     params = [a.arg for a in f.args.args]
-    rets = [n for n in walk_local(f) if isinstance(n, ast.Return) and isinstance(n.value, ast.Tuple)]
+    # the returned tuple, written in the return statement or held whole in a local first
+    rets = []  # (return stmt, tuple display, stmt where the display is evaluated)
+    for n in walk_local(f):
+        if not isinstance(n, ast.Return) or n.value is None:
+            continue
+        if isinstance(n.value, ast.Tuple):
+            rets.append((n, n.value, n))
+        elif isinstance(n.value, ast.Name):
+            os_ = origins(cfg, n.value, n)
+            if os_ and all(o.kind == "expr" and not o.path and isinstance(o.expr, ast.Tuple) for o in os_):
+                rets += [(n, o.expr, o.stmt) for o in os_]
     chk.count("R19b.loader_returns", len(rets))
     chk.floor("R19b.loader_returns", 1)
-    for r in rets:
-        conf = r.value.elts[1] if len(r.value.elts) > 1 else None
+    for r, tup, built_at in rets:
+        conf = tup.elts[1] if len(tup.elts) > 1 else None
         ok = False
         proc = False
         if isinstance(conf, ast.Name):
-            os_ = origins(cfg, conf, r)
-            ok = bool(os_) and all(
-                isinstance(o.expr, ast.Call) and last_attr(o.expr) == "make_child_from_path" and root_name(o.expr) in params
-                and o.expr.args and isinstance(o.expr.args[0], ast.Name) and o.expr.args[0].id in params
-                for o in os_
-            )
+            os_ = origins(cfg, conf, built_at)
+
+            def child_of_root(call) -> bool:
+                if not (isinstance(call, ast.Call) and last_attr(call) == "make_child_from_path" and root_name(call) in params):
+                    return False
+                a0 = call.args[0] if call.args else kwarg(call, "path")
+                return isinstance(a0, ast.Name) and a0.id in params
+
+            ok = bool(os_) and all(child_of_root(o.expr) and o.kind == "expr" and not o.path for o in os_)
             for c in calls_in(f):
-                if last_attr(c) == "process_raw_file_for_config" and root_name(c.func) == conf.id and cfg.dominates(cfg.stmt_of(c), r):
-                    proc = True
+                if last_attr(c) == "process_raw_file_for_config" and isinstance(c.func, ast.Attribute) and cfg.dominates(cfg.stmt_of(c), r):
+                    recv = c.func.value
+                    if root_name(c.func) == conf.id or _same_value_origin(cfg, recv, cfg.stmt_of(c), conf, built_at):
+                        proc = True
         chk.require(ok, "R19b", r, "per-file config for a path is not root_config.make_child_from_path(fname)", detail="path config constructor")
         chk.require(proc, "R19b", r, "inline config of a file read from a path is not processed before the config is returned", detail="path inline config processed")
     # (2) string driver: parse_string copies then processes inline config, and renders with that copy
@@ -274,7 +345,11 @@ def _r19b(chk, repo) -> None:
         st = cfg.stmt_of(c)
         ok = False
         if isinstance(conf, ast.Name):
-            procs = [x for x in calls_in(ps) if last_attr(x) == "process_raw_file_for_config" and root_name(x.func) == conf.id and cfg.dominates(cfg.stmt_of(x), st)]
+            procs = [
+                x for x in calls_in(ps)
+                if last_attr(x) == "process_raw_file_for_config" and isinstance(x.func, ast.Attribute) and cfg.dominates(cfg.stmt_of(x), st)
+                and (root_name(x.func) == conf.id or _same_value_origin(cfg, x.func.value, cfg.stmt_of(x), conf, st))
+            ]
             os_ = origins(cfg, conf, st)
             fresh = bool(os_) and all(isinstance(o.expr, ast.Call) and last_attr(o.expr) == "copy" for o in os_)
             ok = bool(procs) and fresh
@@ -286,7 +361,7 @@ def _r19b(chk, repo) -> None:
         for c in calls_in(f):
             if last_attr(c) != "lint_string_wrapped":
                 continue
-            sf = kwarg(c, "stdin_filename")
+            sf = _stdin_filename_arg(repo, c)
             if sf is None or (isinstance(sf, ast.Constant) and sf.value is None):
                 continue
             n_sites += 1
@@ -295,6 +370,12 @@ def _r19b(chk, repo) -> None:
                         detail="stdin filename config")
     chk.count("R19b.stdin_filename_sites", n_sites)
     chk.floor("R19b.stdin_filename_sites", 2)
+
+
+def _stdin_filename_arg(repo, c: ast.Call) -> Optional[ast.expr]:
+    """The ``stdin_filename`` argument of a ``lint_string_wrapped`` call, by keyword or by the
+    position the parameter has in ``Linter.lint_string_wrapped``."""
+    return _bound_arg(repo.fn(LINTER, "Linter.lint_string_wrapped"), c, "stdin_filename", method=True)
 
 
 def _child_config_goal(repo, func, call, recv: Optional[str], sf: ast.expr, depth: int):
@@ -312,9 +393,24 @@ def _child_config_goal(repo, func, call, recv: Optional[str], sf: ast.expr, dept
         evs = []
         if isinstance(stmt, ast.Assign) and len(stmt.targets) == 1:
             t, v = stmt.targets[0], stmt.value
-            if isinstance(t, ast.Attribute) and t.attr == "config" and root_name(t) == recv and isinstance(v, ast.Call) and last_attr(v) == "make_child_from_path":
-                src = v.func.value if isinstance(v.func, ast.Attribute) else None
-                if src is not None and norm(src) == f"{recv}.config" and v.args and isinstance(v.args[0], ast.Name) and v.args[0].id == X:
+            if isinstance(t, ast.Attribute) and t.attr == "config" and root_name(t) == recv:
+                # the new value, written in place or computed into a local first
+                vals = [(v, stmt)]
+                if isinstance(v, ast.Name):
+                    os_ = origins(cfg, v, stmt)
+                    vals = [(o.expr, o.stmt) for o in os_] if os_ and all(o.kind == "expr" and not o.path for o in os_) else []
+
+                def is_child(call, at) -> bool:
+                    if not (isinstance(call, ast.Call) and last_attr(call) == "make_child_from_path" and isinstance(call.func, ast.Attribute)):
+                        return False
+                    a0 = call.args[0] if call.args else kwarg(call, "path")
+                    if not (isinstance(a0, ast.Name) and a0.id == X and norm(call.func.value) == f"{recv}.config"):
+                        return False
+                    # computed earlier: the filename and the linter must still be the same bindings
+                    rd = cfg.reaching()
+                    return at is stmt or all(rd.defs_at(at, nm) == rd.defs_at(stmt, nm) for nm in (X, recv))
+
+                if vals and all(is_child(e, at) for e, at in vals):
                     evs.append(Var(f"CHILD:{recv}:{X}"))
         return evs
 
